@@ -90,7 +90,12 @@ impl DateTime {
         self.balance_month();
         while self.day > 366 {
             //dbg!(self.day);
-            self.day -= year_len_days(self.year);
+            // When we are past February, the days we skip include next year's February.
+            self.day -= if self.month > 2 {
+                year_len_days(self.year + 1)
+            } else {
+                year_len_days(self.year)
+            };
             //dbg!(self.day);
             //dbg!(self.year);
             self.year += 1;
